@@ -17,6 +17,10 @@ RULE = (
     "window, blank lines, garbage, with and without final newline). RegisterFile.read(content) on the real code; "
     "observed: class index and data of every element. Compared with the model's stream loop and judged by "
     "Spec.C04.holds (placeholder + one element per line of splitLines(content), each decided by its line alone). "
+    "About a third of the cases carry a declaration history: the file class is first created with an EARLIER declaration "
+    "(a permuted subset of the same types, possibly empty), read once, then its REGISTERS is re-assigned (on the class "
+    "that is read or on the class that declared it) or edited in place to the case's declaration, and only then the "
+    "observed read is made — the expectation is the model's for the declaration in force at the observed read alone. "
     "non-trivial = content has at least 2 lines and at least one line matches a register; distinct by full case."
 )
 ASSUMPTIONS = [
@@ -34,9 +38,34 @@ def text_linesize(case):
     return (case["linesize"],) if case.get("linesize") else ()
 
 
+def declare(case):
+    """the file class with the case's declaration in force. With a declaration history (`redeclare`) the
+    class is born with an earlier declaration, used once, and then re-declared through the public idiom
+    `SomeFile.REGISTERS = [...]` (or by editing the declared list in place); the history must leave nothing
+    behind: the property speaks of the register list declared when the content is read"""
+    classes = fsup.mk_register_classes(case["regs"])
+    h = case.get("redeclare")
+    if not h:
+        return fsup.mk_register_file(case["regs"], classes=classes, io=case.get("io"))
+    RF, _ = fsup.mk_register_file(case["regs"], classes=[classes[i] for i in h["prior"]], io=case.get("io"))
+    for _ in range(h.get("reads", 1)):
+        try:
+            RF.read(codec.dec_str(h.get("warm", case["content"])), *text_linesize(case))  # in memory: no extra disk traffic
+        except Exception:
+            pass  # the observed operation is the read made after the re-declaration
+    how = h["how"]
+    if how == "assign":
+        RF.REGISTERS = list(classes)
+    elif how == "assign_declarer":
+        next(k for k in RF.__mro__ if "REGISTERS" in vars(k)).REGISTERS = list(classes)
+    else:  # "inplace": the declared list object itself is edited
+        RF.REGISTERS[:] = classes
+    return RF, classes
+
+
 def run_impl(case):
     try:
-        RF, classes = fsup.mk_register_file(case["regs"], io=case.get("io"))
+        RF, classes = declare(case)
         f = fsup.read_text(RF, codec.dec_str(case["content"]), case.get("io"), *text_linesize(case))
         cap = len(case["content"]) + 5
         return {"elems": [fsup.enc_relem(e, classes) for e in fsup.capped(f.data, cap)]}
@@ -68,10 +97,17 @@ def judge(case, obs, resp):
         exp = resp.get("expected")
         got = obs["elems"]
         i = next((k for k in range(max(len(exp), len(got))) if k >= len(exp) or k >= len(got) or exp[k] != got[k]), None) if isinstance(exp, list) else None
-        return {"status": "oracle", "why": f"{len(got)} elements for {len(exp) - 1 if isinstance(exp, list) else '?'} lines; first difference at element #{i}: got {show_elem(got[i]) if i is not None and i < len(got) else None} expected {show_elem(exp[i]) if i is not None and isinstance(exp, list) and i < len(exp) else None}"}
+        return {"status": "oracle", "why": history_note(case) + f"{len(got)} elements for {len(exp) - 1 if isinstance(exp, list) else '?'} lines; first difference at element #{i}: got {show_elem(got[i]) if i is not None and i < len(got) else None} expected {show_elem(exp[i]) if i is not None and isinstance(exp, list) and i < len(exp) else None}"}
     if not resp["agree"]:
         return {"status": "corr", "why": "model loop and implementation disagree"}
     return {"status": "ok", "why": ""}
+
+
+def history_note(case):
+    h = case.get("redeclare")
+    if not h:
+        return ""
+    return f"[read made after the class, first declared with REGISTERS = types {h['prior']} and read, was re-declared ({h['how']}) with all {len(case['regs'])} types in order] "
 
 
 def show_elem(e):
@@ -107,6 +143,8 @@ def features(case, obs):
         f.append("delimited_register")
     if any(r["digits"] == 0 for r in case["regs"]):
         f.append("zero_width_window")
+    if case.get("redeclare"):
+        f.append("redeclared_" + case["redeclare"]["how"])
     return f
 
 
@@ -224,7 +262,22 @@ def random_case(rng):
         case["linesize"] = rng.choice([2, 3, 16, 80])
     if io:
         case["io"] = io  # the content is read from a path on disk, in the class's declared encoding
+    if rng.random() < 0.35:
+        case["redeclare"] = random_history(rng, len(regs))
     return case
+
+
+def random_history(rng, n):
+    """an earlier declaration of the same file class: a permuted subset of the case's types (empty now and
+    then; a different order whenever there is more than one type), one or two reads under it, and the way the
+    case's declaration is then put in force"""
+    prior = rng.sample(range(n), rng.randrange(0, n + 1))
+    if prior == list(range(n)):
+        prior = prior[::-1] if n > 1 else []
+    h = {"prior": prior, "how": rng.choice(["assign", "assign", "assign_declarer", "inplace"])}
+    if rng.random() < 0.2:
+        h["reads"] = 2
+    return h
 
 
 def corpus_cases():
@@ -258,12 +311,20 @@ def cases_of(chunk):
 def shrinks(case):
     c = codec.dec_str(case["content"])
     lines = c.splitlines(True)
+    h = case.get("redeclare")
+    if h:
+        yield {k: v for k, v in case.items() if k != "redeclare"}
+        if h.get("reads", 1) != 1:
+            yield {**case, "redeclare": {**h, "reads": 1}}
     for i in range(len(lines)):
         yield {**case, "content": codec.enc_str("".join(lines[:i] + lines[i + 1 :]))}
     n = len(case["regs"])
     if n > 1:
         for i in range(n):
-            yield {**case, "regs": case["regs"][:i] + case["regs"][i + 1 :]}
+            c2 = {**case, "regs": case["regs"][:i] + case["regs"][i + 1 :]}
+            if h:
+                c2["redeclare"] = {**h, "prior": [j - (j > i) for j in h["prior"] if j != i]}
+            yield c2
     for i, r in enumerate(case["regs"]):
         for k in range(len(r["fields"])):
             r2 = dict(r, fields=r["fields"][:k] + r["fields"][k + 1 :])
